@@ -447,6 +447,17 @@ def step_assigned(step: Step) -> set[str]:
     return norm.assigned_names(n)
 
 
+def step_rebound(step: Step) -> set[str]:
+    """Plain names re-bound (not merely mutated in place) by the step."""
+    toks = {t for t in step_assigned(step) if "." not in t and t != "?"}
+    inplace: set[str] = set()
+    for n in step_own_nodes(step):
+        inplace |= norm._inplace_roots(n)
+    if step.kind in ("iter", "loopback", "except", "with"):
+        return toks
+    return toks - inplace
+
+
 # ---------------------------------------------------------------------- region helpers
 def find_loops(fn: ast.AST, kind=(ast.While, ast.For, ast.AsyncFor)) -> list[ast.AST]:
     out = []
